@@ -145,6 +145,39 @@ def check_tree(tokens, res: Res, stats: dict) -> None:
                 res.fail("tree:nester-pair", f"{tok.type}/{cl.type}")
 
 
+def check_tree_detached(tokens, res: Res) -> None:
+    """Links must not depend on the caller keeping the root: a helper that builds a tree and hands out only some
+    descendant is ordinary use.  The root is dropped before the links are read."""
+    from markdown_it.tree import SyntaxTreeNode
+
+    def descendants():
+        return list(SyntaxTreeNode(tokens).walk(include_self=False))
+
+    try:
+        nodes = descendants()
+    except Exception:  # noqa: BLE001
+        return  # construction is check_tree's subject
+    for n in nodes[:60] + nodes[-5:]:
+        p = n.parent
+        if p is None:
+            res.fail("tree:detached:parent-lost", f"{n!r}.parent is None after the caller dropped the root (the node is not a root: is_root={n.is_root})")
+            return
+        if not any(c is n for c in p.children):
+            res.fail("tree:detached:not-among-parents-children", repr(n))
+            return
+        if not any(c is n for c in n.siblings):
+            res.fail("tree:detached:siblings", repr(n))
+            return
+        top = n
+        for _ in range(10**4):
+            if top.parent is None:
+                break
+            top = top.parent
+        if not top.is_root or top.type != "root":
+            res.fail("tree:detached:climb-does-not-reach-root", f"from {n!r} reached {top!r}")
+            return
+
+
 def check(case) -> Res:
     from markdown_it.token import Token
 
@@ -189,6 +222,7 @@ def check(case) -> Res:
         return res
     # ---- tree
     check_tree(tokens, res, stats)
+    check_tree_detached(tokens, res)
     # ---- rendering repeatable
     before = copy.deepcopy(tokens)
     h1 = md.renderer.render(tokens, md.options, env)
